@@ -1,6 +1,10 @@
-From DnsV Require Import Model.Quote.
+(* Proofs/Quote: Bunquote inverts Bquote, and Bquote never emits a separator (C17). *)
+From DnsV Require Import Model.Quote Proofs.Utf8.
+From Coq Require Import ZifyN ZifyNat ZifyBool.
+Ltac Zify.zify_post_hook ::= Z.div_mod_to_equations.
 Open Scope N_scope.
 
+(* ---------- hex digits ---------- *)
 Lemma unhex_hexdigit : forall n, n < 16 -> unhex (hexdigit n) = Some n.
 Proof.
   intros n H. unfold hexdigit, unhex.
@@ -13,4 +17,517 @@ Proof.
       * f_equal. lia.
       * symmetry. apply andb_true_intro. split; apply N.leb_le; lia.
     + symmetry. apply andb_false_iff. right. apply N.leb_gt. lia.
+Qed.
+
+(* bytes that are neither a separator, nor a newline, nor backslash, nor double quote *)
+Definition good (x : N) : Prop := x <> 92 /\ x <> 34 /\ x <> 44 /\ x <> 58 /\ x <> 10.
+
+Lemma hexdigit_good : forall n, n < 16 -> good (hexdigit n).
+Proof. intros n H. unfold good, hexdigit. destruct (N.ltb_spec n 10); lia. Qed.
+
+Lemma mod16_lt : forall a, a mod 16 < 16.
+Proof. intros. apply N.mod_lt. lia. Qed.
+
+Lemma unhex_n_digit : forall n d t v, d < 16 ->
+  unhex_n (S n) (hexdigit d :: t) v = unhex_n n t (v * 16 + d).
+Proof. intros. cbn [unhex_n]. rewrite unhex_hexdigit by assumption. reflexivity. Qed.
+
+Lemma unhex_hex2 : forall b X, b < 256 -> unhex_n 2 (hex2 b ++ X) 0 = Some (b, X).
+Proof.
+  intros b X H. unfold hex2. cbn [app].
+  rewrite !unhex_n_digit by apply mod16_lt. cbn [unhex_n]. f_equal. f_equal. lia.
+Qed.
+
+Lemma unhex_hex4_gen : forall r X v, unhex_n 4 (hex4 r ++ X) v = Some (v * 65536 + r mod 65536, X).
+Proof.
+  intros r X v. unfold hex4. cbn [app].
+  rewrite !unhex_n_digit by apply mod16_lt. cbn [unhex_n]. f_equal. f_equal.
+  replace (r / 256) with (r / 16 / 16) by (rewrite N.div_div by lia; reflexivity).
+  replace (r / 4096) with (r / 16 / 16 / 16) by (rewrite !N.div_div by lia; reflexivity).
+  lia.
+Qed.
+
+Lemma unhex_hex8 : forall r X, r < 4294967296 -> unhex_n 8 (hex8 r ++ X) 0 = Some (r, X).
+Proof.
+  intros r X H. unfold hex8. cbn [app].
+  rewrite !unhex_n_digit by apply mod16_lt.
+  rewrite unhex_hex4_gen. f_equal. f_equal.
+  replace (r / 1048576) with (r / 65536 / 16) by (rewrite N.div_div by lia; reflexivity).
+  replace (r / 16777216) with (r / 65536 / 16 / 16) by (rewrite !N.div_div by lia; reflexivity).
+  replace (r / 268435456) with (r / 65536 / 16 / 16 / 16) by (rewrite !N.div_div by lia; reflexivity).
+  lia.
+Qed.
+
+Lemma hex2_good : forall b, Forall good (hex2 b).
+Proof. intros. unfold hex2. repeat constructor; apply hexdigit_good, mod16_lt. Qed.
+Lemma hex4_good : forall b, Forall good (hex4 b).
+Proof. intros. unfold hex4. repeat constructor; apply hexdigit_good, mod16_lt. Qed.
+Lemma hex8_good : forall b, Forall good (hex8 b).
+Proof. intros. unfold hex8. apply Forall_app. split; [|apply hex4_good].
+  repeat constructor; apply hexdigit_good, mod16_lt. Qed.
+
+(* ---------- the three rewriting passes of Bquote ---------- *)
+Definition R44 : bytes := [92; 48; 53; 52].
+Definition R58 : bytes := [92; 48; 55; 50].
+Definition rw1 (x : N) : bytes := if x =? 44 then R44 else if x =? 58 then R58 else [x].
+Definition rw (s : bytes) : bytes := flat_map rw1 s.
+Notation U := unescape_dquote.
+
+Lemma contains_app : forall c a b, contains c (a ++ b) = contains c a || contains c b.
+Proof. induction a; intros; cbn [app contains]; [reflexivity|]. rewrite IHa. apply orb_assoc. Qed.
+
+Lemma contains_false_Forall : forall c s, contains c s = false <-> Forall (fun x => x <> c) s.
+Proof.
+  induction s; cbn [contains]; split; intros H.
+  - constructor.
+  - reflexivity.
+  - apply orb_false_iff in H. destruct H as [H1 H2]. constructor; [apply N.eqb_neq; exact H1|apply IHs; exact H2].
+  - inversion H; subst. apply orb_false_iff. split; [apply N.eqb_neq; assumption|apply IHs; assumption].
+Qed.
+
+Lemma replace1_none : forall c rep s, contains c s = false -> replace1 c rep s = s.
+Proof.
+  induction s; cbn [contains replace1]; intros H; [reflexivity|].
+  apply orb_false_iff in H. destruct H as [H1 H2]. rewrite H1. cbn [app]. f_equal. auto.
+Qed.
+
+Lemma replace1_if : forall c rep s, (if contains c s then replace1 c rep s else s) = replace1 c rep s.
+Proof. intros. destruct (contains c s) eqn:E; [reflexivity|]. symmetry. apply replace1_none. exact E. Qed.
+
+Lemma replace1_app : forall c rep a b, replace1 c rep (a ++ b) = replace1 c rep a ++ replace1 c rep b.
+Proof. induction a; intros; cbn [app replace1]; [reflexivity|]. rewrite IHa. apply app_assoc. Qed.
+
+Lemma rw_app : forall a b, rw (a ++ b) = rw a ++ rw b.
+Proof. intros. unfold rw. apply flat_map_app. Qed.
+
+Lemma replace_rw : forall s, replace1 58 R58 (replace1 44 R44 s) = rw s.
+Proof.
+  induction s; [reflexivity|]. cbn [replace1]. rewrite replace1_app, IHs.
+  unfold rw. cbn [flat_map]. f_equal. unfold rw1.
+  destruct (N.eqb_spec a 44).
+  - reflexivity.
+  - cbn [replace1 app]. destruct (a =? 58); reflexivity.
+Qed.
+
+Lemma rw_id : forall s, Forall good s -> rw s = s.
+Proof.
+  induction 1; [reflexivity|]. unfold rw in *. cbn [flat_map]. rewrite IHForall.
+  unfold rw1. destruct H as (_ & _ & H1 & H2 & _).
+  apply N.eqb_neq in H1, H2. rewrite H1, H2. reflexivity.
+Qed.
+
+Lemma U_cons : forall x R, x <> 92 \/ hd 0 R <> 34 -> U (x :: R) = x :: U R.
+Proof.
+  intros x R H. destruct R as [|y R]; [reflexivity|].
+  cbn [unescape_dquote]. cbn [hd] in H.
+  destruct ((x =? 92) && (y =? 34)) eqn:E; [lia|reflexivity].
+Qed.
+
+Lemma U_esc : forall R, U (92 :: 34 :: R) = 34 :: U R.
+Proof. reflexivity. Qed.
+
+Lemma U_app_no92 : forall l R, Forall (fun x => x <> 92) l -> U (l ++ R) = l ++ U R.
+Proof.
+  induction 1; [reflexivity|]. cbn [app]. rewrite U_cons by (left; assumption). f_equal. assumption.
+Qed.
+
+Lemma good_no92 : forall l, Forall good l -> Forall (fun x => x <> 92) l.
+Proof. intros l H. eapply Forall_impl; [|exact H]. intros a Ha. apply Ha. Qed.
+
+Lemma bquote_eq : forall oracle b,
+  bquote oracle b = U (rw (quote_body oracle (length b) b)).
+Proof.
+  intros. unfold bquote, go_quote. rewrite !replace1_if.
+  set (q := quote_body oracle (length b) b).
+  change (34 :: q ++ [34]) with ([34] ++ q ++ [34]).
+  rewrite !replace1_app. fold R44 R58. rewrite !replace_rw.
+  change (rw [34]) with [34].
+  cbn [app].
+  replace (Nat.ltb (length (34 :: rw q ++ [34])) 2) with false.
+  - unfold strip_ends. cbn [tl]. rewrite removelast_last. reflexivity.
+  - symmetry. apply Nat.ltb_ge. cbn [length]. rewrite app_length. cbn [length]. lia.
+Qed.
+
+(* ---------- tokens ---------- *)
+(* what Bunquote appends for one UnquoteChar result *)
+Definition emit (c : N) (mb : bool) : bytes :=
+  if (c <? 128) || negb mb then [c mod 256] else encode_rune c.
+
+(* UnquoteChar consumes exactly the token t and what Bunquote appends is orig *)
+Definition unq_ok (t orig : bytes) : Prop :=
+  forall X, exists c mb, unquote_char (t ++ X) = Ok (c, mb, X) /\ emit c mb = orig.
+
+Definition nosep (x : N) : Prop := x <> 44 /\ x <> 58 /\ x <> 10.
+
+(* t : a token emitted by strconv.Quote for the source bytes orig;
+   t' : what is left of it after the three rewriting passes of Bquote *)
+Definition tok_ok (t orig : bytes) : Prop :=
+  exists t',
+    (forall Y, hd 0 Y <> 34 -> U (rw t ++ Y) = t' ++ U Y) /\
+    unq_ok t' orig /\
+    (forall Y, hd 0 (rw t ++ Y) <> 34) /\
+    t' <> [] /\
+    Forall nosep t' /\
+    (contains 92 t' = false -> t' = orig).
+
+Lemma good_nosep : forall l, Forall good l -> Forall nosep l.
+Proof. intros l H. eapply Forall_impl; [|exact H]. unfold good, nosep. intros a Ha. tauto. Qed.
+
+Lemma tok_ok_raw : forall t, Forall good t -> t <> [] -> unq_ok t t -> tok_ok t t.
+Proof.
+  intros t G Ne Q. exists t. rewrite (rw_id t G).
+  split; [intros Y _; apply U_app_no92, good_no92, G|].
+  split; [exact Q|].
+  split. { intros Y. destruct t as [|x t]; [congruence|]. inversion G; subst. cbn [app hd]. apply H1. }
+  split; [exact Ne|]. split; [apply good_nosep, G|]. reflexivity.
+Qed.
+
+Lemma tok_ok_esc : forall e l orig, good e -> Forall good l -> unq_ok (92 :: e :: l) orig ->
+  tok_ok (92 :: e :: l) orig.
+Proof.
+  intros e l orig Ge Gl Q. exists (92 :: e :: l).
+  assert (R : rw (92 :: e :: l) = 92 :: e :: l).
+  { change (92 :: e :: l) with ([92] ++ e :: l). rewrite rw_app. rewrite (rw_id (e :: l)) by (constructor; assumption). reflexivity. }
+  rewrite R.
+  split.
+  { intros Y _. cbn [app]. rewrite U_cons by (right; cbn [hd]; apply Ge).
+    f_equal. change (e :: l ++ Y) with ((e :: l) ++ Y). apply U_app_no92, good_no92. constructor; assumption. }
+  split; [exact Q|].
+  split. { intros Y. cbn [app hd]. lia. }
+  split; [discriminate|].
+  split. { constructor; [unfold nosep; lia|]. apply good_nosep. constructor; assumption. }
+  cbn [contains]. rewrite N.eqb_refl. discriminate.
+Qed.
+
+Lemma emit_byte : forall c, c < 256 -> emit c false = [c].
+Proof. intros. unfold emit. cbn [negb]. rewrite orb_true_r. rewrite N.mod_small by assumption. reflexivity. Qed.
+
+Lemma tok_simple : forall e c, good e -> (forall X, unquote_char (92 :: e :: X) = Ok (c, false, X)) -> c < 256 ->
+  tok_ok [92; e] [c].
+Proof.
+  intros e c G Q Hc. apply tok_ok_esc; [exact G|constructor|].
+  intros X. exists c, false. split; [apply Q|apply emit_byte, Hc].
+Qed.
+
+Lemma tok_dquote : tok_ok [92; 34] [34].
+Proof.
+  exists [34]. split; [intros Y _; reflexivity|].
+  split. { intros X. exists 34, false. split; reflexivity. }
+  split. { intros Y. cbn. lia. }
+  split; [discriminate|]. split; [repeat constructor; lia|]. reflexivity.
+Qed.
+
+Lemma tok_backslash : tok_ok [92; 92] [92].
+Proof.
+  exists [92; 92].
+  split. { intros Y HY. change (rw [92; 92] ++ Y) with (92 :: 92 :: Y).
+    rewrite U_cons by (right; cbn [hd]; lia). rewrite U_cons by (right; exact HY). reflexivity. }
+  split. { intros X. exists 92, false. split; reflexivity. }
+  split. { intros Y. cbn. lia. }
+  split; [discriminate|]. split; [repeat constructor; lia|]. cbn. discriminate.
+Qed.
+
+Lemma tok_octal : forall c a b, good a -> good b -> a <> 34 ->
+  rw [c] = [92; 48; a; b] ->
+  (forall X, unquote_char (92 :: 48 :: a :: b :: X) = Ok (c, false, X)) -> c < 256 ->
+  nosep a -> nosep b ->
+  tok_ok [c] [c].
+Proof.
+  intros c a b Ga Gb _ R Q Hc Na Nb. exists [92; 48; a; b]. rewrite R.
+  split. { intros Y _. cbn [app]. rewrite U_cons by (right; cbn [hd]; lia).
+    f_equal. change (48 :: a :: b :: Y) with ([48; a; b] ++ Y). apply U_app_no92.
+    repeat constructor; try lia; [apply Ga|apply Gb]. }
+  split. { intros X. exists c, false. split; [apply Q|apply emit_byte, Hc]. }
+  split. { intros Y. cbn [app hd]. lia. }
+  split; [discriminate|].
+  split. { repeat constructor; try lia; [apply Na|apply Na|apply Na|apply Nb|apply Nb|apply Nb]. }
+  cbn [contains]. rewrite N.eqb_refl. discriminate.
+Qed.
+
+Lemma tok_comma : tok_ok [44] [44].
+Proof.
+  apply (tok_octal 44 53 52); try (unfold good, nosep; lia); try reflexivity.
+Qed.
+
+Lemma tok_colon : tok_ok [58] [58].
+Proof.
+  apply (tok_octal 58 55 50); try (unfold good, nosep; lia); try reflexivity.
+Qed.
+
+Lemma unquote_char_x : forall u, unquote_char (92 :: 120 :: u) =
+  match unhex_n 2 u 0 with Some (v, u') => Ok (v, false, u') | None => Err 1 end.
+Proof. reflexivity. Qed.
+
+Lemma unquote_char_u : forall u, unquote_char (92 :: 117 :: u) =
+  match unhex_n 4 u 0 with
+  | Some (v, u') => if valid_rune v then Ok (v, true, u') else Err 1
+  | None => Err 1 end.
+Proof. reflexivity. Qed.
+
+Lemma unquote_char_U : forall u, unquote_char (92 :: 85 :: u) =
+  match unhex_n 8 u 0 with
+  | Some (v, u') => if valid_rune v then Ok (v, true, u') else Err 1
+  | None => Err 1 end.
+Proof. reflexivity. Qed.
+
+Lemma tok_hexbyte : forall b, b < 256 -> tok_ok (92 :: 120 :: hex2 b) [b].
+Proof.
+  intros b Hb. apply tok_ok_esc; [unfold good; lia|apply hex2_good|].
+  intros X. exists b, false. cbn [app]. rewrite unquote_char_x, unhex_hex2 by assumption.
+  split; [reflexivity|apply emit_byte, Hb].
+Qed.
+
+Lemma unq_ok_ascii : forall r, r < 128 -> r <> 92 -> unq_ok [r] [r].
+Proof.
+  intros r Hr N92 X. exists r, false. cbn [app]. unfold unquote_char.
+  destruct (128 <=? r) eqn:E1; [lia|]. destruct (r =? 92) eqn:E2; [lia|]. cbn [negb].
+  split; [reflexivity|apply emit_byte; lia].
+Qed.
+
+Lemma escaped_ascii : forall oracle r, r < 128 -> tok_ok (escaped_rune oracle r) [r].
+Proof.
+  intros oracle r Hr. unfold escaped_rune.
+  destruct (N.eqb_spec r 34) as [->|N34]; [apply tok_dquote|].
+  destruct (N.eqb_spec r 92) as [->|N92]; [apply tok_backslash|].
+  cbn [orb]. unfold is_print. destruct (N.ltb_spec r 128); [|lia].
+  destruct ((32 <=? r) && (r <=? 126)) eqn:P.
+  { unfold encode_rune. destruct (N.ltb_spec r 128); [|lia].
+    destruct (N.eq_dec r 44) as [->|N44]; [apply tok_comma|].
+    destruct (N.eq_dec r 58) as [->|N58]; [apply tok_colon|].
+    apply tok_ok_raw.
+    - repeat constructor; lia.
+    - discriminate.
+    - apply unq_ok_ascii; assumption. }
+  destruct (N.eqb_spec r 7) as [->|N7]; [apply tok_simple; [unfold good; lia|reflexivity|lia]|].
+  destruct (N.eqb_spec r 8) as [->|N8]; [apply tok_simple; [unfold good; lia|reflexivity|lia]|].
+  destruct (N.eqb_spec r 12) as [->|N12]; [apply tok_simple; [unfold good; lia|reflexivity|lia]|].
+  destruct (N.eqb_spec r 10) as [->|N10]; [apply tok_simple; [unfold good; lia|reflexivity|lia]|].
+  destruct (N.eqb_spec r 13) as [->|N13]; [apply tok_simple; [unfold good; lia|reflexivity|lia]|].
+  destruct (N.eqb_spec r 9) as [->|N9]; [apply tok_simple; [unfold good; lia|reflexivity|lia]|].
+  destruct (N.eqb_spec r 11) as [->|N11]; [apply tok_simple; [unfold good; lia|reflexivity|lia]|].
+  destruct ((r <? 32) || (r =? 127)) eqn:C; [|lia].
+  apply tok_hexbyte. lia.
+Qed.
+
+Lemma unquote_char_multi : forall r X, 128 <= r -> valid_rune r = true ->
+  unquote_char (encode_rune r ++ X) = Ok (r, true, X).
+Proof.
+  intros r X H H0. destruct (encode_rune_bytes r H H0) as [F L].
+  pose proof (decode_encode r X H H0) as D.
+  assert (S : skipn (length (encode_rune r)) (encode_rune r ++ X) = X).
+  { rewrite skipn_app, skipn_all, Nat.sub_diag. reflexivity. }
+  destruct (encode_rune r) as [|c l] eqn:E; [cbn in L; lia|].
+  inversion F; subst. cbn [app] in *. unfold unquote_char.
+  destruct (128 <=? c) eqn:E1; [|lia]. rewrite D. cbv beta iota. rewrite S. reflexivity.
+Qed.
+
+Lemma emit_multi : forall r, 128 <= r -> emit r true = encode_rune r.
+Proof. intros. unfold emit. destruct (N.ltb_spec r 128); [lia|]. reflexivity. Qed.
+
+Lemma unhex_hex4 : forall r X, r < 65536 -> unhex_n 4 (hex4 r ++ X) 0 = Some (r, X).
+Proof. intros. rewrite unhex_hex4_gen. rewrite N.mod_small by assumption. reflexivity. Qed.
+
+Lemma escaped_multi : forall oracle r, 128 <= r -> valid_rune r = true ->
+  tok_ok (escaped_rune oracle r) (encode_rune r).
+Proof.
+  intros oracle r Hr Hv. unfold escaped_rune.
+  destruct (N.eqb_spec r 34); [lia|]. destruct (N.eqb_spec r 92); [lia|]. cbn [orb].
+  destruct (is_print oracle r).
+  { destruct (encode_rune_bytes r Hr Hv) as [F L]. apply tok_ok_raw.
+    - eapply Forall_impl; [|exact F]. unfold good. intros a Ha. lia.
+    - intros E. rewrite E in L. cbn in L. lia.
+    - intros X. exists r, true. split; [apply unquote_char_multi; assumption|apply emit_multi; assumption]. }
+  repeat (match goal with |- context [if ?a =? ?b then _ else _] => destruct (N.eqb_spec a b); [lia|] end).
+  destruct ((r <? 32) || (r =? 127)) eqn:E; [lia|].
+  rewrite Hv. cbn [negb].
+  destruct (N.ltb_spec r 65536).
+  - apply tok_ok_esc; [unfold good; lia|apply hex4_good|].
+    intros X. exists r, true. cbn [app]. rewrite unquote_char_u, unhex_hex4 by assumption. rewrite Hv.
+    split; [reflexivity|apply emit_multi; assumption].
+  - apply tok_ok_esc; [unfold good; lia|apply hex8_good|].
+    intros X. exists r, true. cbn [app]. rewrite unquote_char_U, unhex_hex8 by (unfold valid_rune in Hv; lia). rewrite Hv.
+    split; [reflexivity|apply emit_multi; assumption].
+Qed.
+
+(* ---------- one iteration of the loop of strconv.Quote ---------- *)
+Lemma quote_body_step : forall oracle f b0 t, wf_bytes (b0 :: t) ->
+  exists tok orig s',
+    quote_body oracle (S f) (b0 :: t) = tok ++ quote_body oracle f s' /\
+    b0 :: t = orig ++ s' /\ tok_ok tok orig /\ orig <> [].
+Proof.
+  intros oracle f b0 t W. inversion W as [|? ? Hb Wt]; subst.
+  cbn [quote_body].
+  destruct (N.ltb_spec b0 128).
+  - cbv beta iota.
+    destruct (N.eqb_spec b0 rune_error) as [E|_]; [unfold rune_error in E; lia|].
+    rewrite andb_false_r.
+    exists (escaped_rune oracle b0), [b0], t.
+    split; [reflexivity|]. split; [reflexivity|]. split; [apply escaped_ascii; assumption|discriminate].
+  - destruct (decode_rune (b0 :: t)) as [r w] eqn:D. apply decode_rune_spec in D; [|lia].
+    destruct D as [[-> ->]|(Hw & Hr & Hv & Hl & Hs)].
+    + cbv beta iota. cbn [Nat.eqb andb]. rewrite N.eqb_refl.
+      exists (92 :: 120 :: hex2 b0), [b0], t.
+      split; [reflexivity|]. split; [reflexivity|]. split; [apply tok_hexbyte; assumption|discriminate].
+    + cbv beta iota. destruct (Nat.eqb_spec w 1); [lia|]. cbn [andb].
+      exists (escaped_rune oracle r), (encode_rune r), (skipn w (b0 :: t)).
+      split; [reflexivity|]. split; [exact Hs|]. split; [apply escaped_multi; assumption|].
+      intros E. rewrite E in Hl. cbn in Hl. lia.
+Qed.
+
+Lemma unquote_loop_step : forall f t X c mb, t <> [] -> unquote_char (t ++ X) = Ok (c, mb, X) ->
+  unquote_loop (S f) (t ++ X) =
+  match unquote_loop f X with Err e => Err e | Ok rest => Ok (emit c mb ++ rest) end.
+Proof.
+  intros f t X c mb Ne H. destruct (t ++ X) as [|y l] eqn:E.
+  - apply app_eq_nil in E. destruct E. contradiction.
+  - cbn [unquote_loop]. rewrite H. reflexivity.
+Qed.
+
+Lemma unquote_loop_nil : forall f, unquote_loop f [] = Ok [].
+Proof. destruct f; reflexivity. Qed.
+
+(* the output of Bquote for the source s, with fuel for the loop of strconv.Quote *)
+Definition out (oracle : N -> bool) (fuel : nat) (s : bytes) : bytes :=
+  U (rw (quote_body oracle fuel s)).
+
+Lemma quote_main : forall oracle fuel s, wf_bytes s -> (length s <= fuel)%nat ->
+  hd 0 (rw (quote_body oracle fuel s)) <> 34 /\
+  (forall f', (length (out oracle fuel s) <= f')%nat -> unquote_loop f' (out oracle fuel s) = Ok s) /\
+  Forall nosep (out oracle fuel s) /\
+  (contains 92 (out oracle fuel s) = false -> out oracle fuel s = s).
+Proof.
+  intros oracle. unfold out.
+  assert (Base : forall fuel,
+    hd 0 (rw (quote_body oracle fuel [])) <> 34 /\
+    (forall f', (length (U (rw (quote_body oracle fuel []))) <= f')%nat ->
+                unquote_loop f' (U (rw (quote_body oracle fuel []))) = Ok []) /\
+    Forall nosep (U (rw (quote_body oracle fuel []))) /\
+    (contains 92 (U (rw (quote_body oracle fuel []))) = false -> U (rw (quote_body oracle fuel [])) = [])).
+  { intros fuel. replace (quote_body oracle fuel []) with (@nil N) by (destruct fuel; reflexivity).
+    cbn [rw flat_map unescape_dquote hd].
+    split; [lia|]. split; [intros; apply unquote_loop_nil|]. split; [constructor|reflexivity]. }
+  induction fuel; intros s W L.
+  - destruct s; [|cbn in L; lia]. apply Base.
+  - destruct s as [|b0 t]; [apply Base|].
+    destruct (quote_body_step oracle fuel b0 t W) as (tok & orig & s' & E & Es & T & Ne).
+    rewrite E, rw_app. destruct T as (t' & T1 & T2 & T3 & T4 & T5 & T6).
+    assert (Ws : wf_bytes s').
+    { unfold wf_bytes in *. rewrite Es in W. apply Forall_app in W. apply W. }
+    assert (Ls : (length s' <= fuel)%nat).
+    { assert (1 <= length orig)%nat by (destruct orig; [congruence|cbn; lia]).
+      rewrite Es in L. rewrite app_length in L. lia. }
+    destruct (IHfuel s' Ws Ls) as (I1 & I2 & I3 & I4).
+    rewrite T1 by exact I1.
+    split; [apply T3|]. split.
+    { intros f' Lf. rewrite app_length in Lf.
+      assert (1 <= length t')%nat by (destruct t'; [congruence|cbn; lia]).
+      destruct f'; [lia|].
+      destruct (T2 (U (rw (quote_body oracle fuel s')))) as (c & mb & Uq & Em).
+      rewrite (unquote_loop_step _ _ _ _ _ T4 Uq). rewrite I2 by lia. rewrite Em, Es. reflexivity. }
+    split; [apply Forall_app; split; assumption|].
+    intros C. rewrite contains_app in C. apply orb_false_iff in C. destruct C as [C1 C2].
+    rewrite (T6 C1), (I4 C2). symmetry. exact Es.
+Qed.
+
+(* ---------- C17 ---------- *)
+Theorem bquote_roundtrip : forall oracle b, wf_bytes b -> bunquote (bquote oracle b) = Ok b.
+Proof.
+  intros oracle b W. rewrite bquote_eq.
+  destruct (quote_main oracle (length b) b W (le_n _)) as (_ & I2 & _ & I4). unfold out in *.
+  set (o := U (rw (quote_body oracle (length b) b))) in *.
+  unfold bunquote. destruct o as [|x o'] eqn:E.
+  - f_equal. apply I4. reflexivity.
+  - rewrite <- E in *. destruct (contains 92 o) eqn:C; cbn [negb].
+    + apply I2. apply le_n.
+    + f_equal. apply I4. reflexivity.
+Qed.
+
+Lemma nosep_contains : forall l, Forall nosep l ->
+  contains 44 l = false /\ contains 58 l = false /\ contains 10 l = false.
+Proof.
+  intros l H. repeat split; apply contains_false_Forall; (eapply Forall_impl; [|exact H]);
+    unfold nosep; intros a Ha; tauto.
+Qed.
+
+Theorem bquote_no_separator : forall oracle b, wf_bytes b ->
+  contains 44 (bquote oracle b) = false /\ contains 58 (bquote oracle b) = false /\
+  contains 10 (bquote oracle b) = false.
+Proof.
+  intros oracle b W. rewrite bquote_eq.
+  destruct (quote_main oracle (length b) b W (le_n _)) as (_ & _ & I3 & _).
+  apply nosep_contains. exact I3.
+Qed.
+
+(* ---------- fields ---------- *)
+(* bytes.Join fs [sep] *)
+Fixpoint join_sep (sep : N) (l : list bytes) : bytes :=
+  match l with
+  | [] => []
+  | x :: t => match t with [] => x | _ :: _ => x ++ sep :: join_sep sep t end
+  end.
+
+Lemma split_on_nosep : forall c x rest cur, contains c x = false ->
+  split_on c (x ++ rest) cur = split_on c rest (rev x ++ cur).
+Proof.
+  induction x; intros rest cur H; [reflexivity|].
+  cbn [contains] in H. apply orb_false_iff in H. destruct H as [H1 H2].
+  cbn [app split_on rev]. rewrite H1. rewrite IHx by assumption. rewrite <- app_assoc. reflexivity.
+Qed.
+
+Lemma split_join : forall c l, l <> [] -> Forall (fun x => contains c x = false) l ->
+  split_on c (join_sep c l) [] = l.
+Proof.
+  induction l as [|x t IH]; intros Ne F; [congruence|].
+  inversion F as [|? ? Fx Ft]; subst. cbn [join_sep]. destruct t as [|y t'].
+  - rewrite <- (app_nil_r x) at 1. rewrite split_on_nosep by assumption.
+    cbn [split_on]. rewrite app_nil_r, rev_involutive. reflexivity.
+  - rewrite split_on_nosep by assumption. cbn [split_on]. rewrite N.eqb_refl.
+    rewrite app_nil_r, rev_involutive. f_equal. apply IH; [discriminate|assumption].
+Qed.
+
+Lemma first_sep_skip : forall x rest, contains 44 x = false -> contains 58 x = false ->
+  first_sep (x ++ rest) = first_sep rest.
+Proof.
+  induction x; intros rest H1 H2; [reflexivity|].
+  cbn [contains] in H1, H2. apply orb_false_iff in H1, H2. destruct H1 as [A1 B1], H2 as [A2 B2].
+  cbn [app first_sep]. rewrite A1, A2. cbn [orb]. apply IHx; assumption.
+Qed.
+
+Theorem fields_roundtrip : forall oracle sep fs, sep = 44 \/ sep = 58 -> fs <> [] ->
+  Forall wf_bytes fs ->
+  let line := join_sep sep (map (bquote oracle) fs) in
+  split_on sep line [] = map (bquote oracle) fs /\
+  map bunquote (split_on sep line []) = map Ok fs /\
+  ((2 <= length fs)%nat -> first_sep line = Some sep).
+Proof.
+  intros oracle sep fs Hsep Ne W line. subst line.
+  assert (S : split_on sep (join_sep sep (map (bquote oracle) fs)) [] = map (bquote oracle) fs).
+  { apply split_join.
+    - destruct fs; [congruence|discriminate].
+    - apply Forall_map. eapply Forall_impl; [|exact W]. intros b Wb.
+      destruct (bquote_no_separator oracle b Wb) as (A & B & _). destruct Hsep; subst; assumption. }
+  split; [exact S|]. split.
+  - rewrite S, map_map. apply map_ext_Forall. eapply Forall_impl; [|exact W].
+    intros b Wb. apply bquote_roundtrip. exact Wb.
+  - intros L. destruct fs as [|a [|b t]]; cbn [length] in L; try lia.
+    inversion W as [|? ? Wa _]; subst.
+    destruct (bquote_no_separator oracle a Wa) as (A & B & _).
+    cbn [map join_sep]. rewrite first_sep_skip by assumption.
+    cbn [first_sep]. destruct Hsep; subst; reflexivity.
+Qed.
+
+(* a concrete instance covering every kind of token (statement repeated in Properties/C17.v) *)
+Lemma quote_example :
+  let oracle := fun r => r =? 233 in
+  let b := [97; 44; 58; 34; 92; 10; 0; 127; 195; 169; 239; 191; 189; 240; 159; 152; 128; 255; 192; 226; 130] in
+  wf_bytes b /\
+  bquote oracle b =
+    [97; 92;48;53;52; 92;48;55;50; 34; 92;92; 92;110; 92;120;48;48; 92;120;55;102; 195;169;
+     92;117;102;102;102;100; 92;85;48;48;48;49;102;54;48;48; 92;120;102;102; 92;120;99;48;
+     92;120;101;50; 92;120;56;50] /\
+  bunquote (bquote oracle b) = Ok b /\
+  split_on 44 (join_sep 44 (map (bquote oracle) [b; []; [44; 44]])) [] =
+    [bquote oracle b; []; [92;48;53;52; 92;48;53;52]].
+Proof.
+  cbv zeta. split; [repeat constructor; reflexivity|]. vm_compute. repeat split.
 Qed.
